@@ -24,7 +24,7 @@ N_REPLY = 13
 N_DIRECTED = len(TEMPLATES) * len(OFFENDER) * 3 * N_REPLY * 2 * 2
 
 
-def directed_case(idx):
+def directed_case(idx, extra_reply=None):
     """systematic part: topology template x type of the offending simulator x step index of the malformed reply x reply kind
     x API version announced by the offender (current / older, i.e. behind the version adapters) x World(debug)"""
     tpl, idx = TEMPLATES[idx % len(TEMPLATES)], idx // len(TEMPLATES)
@@ -37,7 +37,7 @@ def directed_case(idx):
     tt = at                                      # the offender steps at 0, 1, 2, ... (self-steps every time unit)
     replies = [tt, tt - 1, 0 if tt else -3, -1, 'float:1.5', 'soon', None, True, False, f'float:{tt + 1.5}', f'float:{tt + 2.25}', f'float:{tt + 1}.0',
                ('time', tt - 1)]
-    rep = replies[rk]
+    rep = replies[rk] if extra_reply is None else extra_reply
     def sim(t):
         if t == 'time-based': return {'type': t, 'step_size': 1, 'default_output': [None, ['po']]}
         attrs = ['eo'] if t == 'event-based' else ['po', 'eo']
@@ -67,7 +67,14 @@ def directed_case(idx):
     return case
 
 
+EXTRA_REPLIES = ['float:inf', 'float:-inf', 'float:nan', 'float:1e308']      # not numbers a step time can be, whatever their use as sentinels
+
+
 def case_gen(rng, k):
+    if k % 30 == 0:
+        # (one case in thirty: the non-finite replies, for every type of offender, template and step index in turn)
+        j = k // 30
+        return directed_case(j * 7 + 3, extra_reply=EXTRA_REPLIES[j % len(EXTRA_REPLIES)])
     if k % 3:
         # two thirds: the systematic family, visited with a stride that is coprime to its size
         j = k - k // 3 - 1
